@@ -38,8 +38,9 @@ class MG1Uniform(distributions.Uniform):
     def log_prob(self, value):
         return super().log_prob(self._to_noise(value))
 
-    def sample(self, sample_shape=torch.Size()):
-        return self._to_parameters(super().sample(sample_shape))
+    def rsample(self, sample_shape=torch.Size()):
+        # torch.distributions.Distribution.sample() calls rsample() under no_grad, so both samplers return parameters.
+        return self._to_parameters(super().rsample(sample_shape))
 
     @property
     def mean(self):
